@@ -205,6 +205,22 @@ def value_items(v):
     return None
 
 
+def span_of(it, S, loc):
+    """(origin location, start, length): which part of which original byte sequence the vector at loc holds now"""
+    v = S.read((loc[0], loc[1] + (("span",),)))
+    if isinstance(v, tuple) and v[0] == "model" and v[1] == "span" and isinstance(v[2], tuple) and v[2][0] == "ref":
+        return v[2][1], v[3], v[4]
+    return loc, U(0), get_len(it, S, loc)
+
+
+def span_value(org, start, ln):
+    return ("model", "span", ("ref", org), start, ln)
+
+
+def set_span(S, loc, org, start, ln):
+    S.write((loc[0], loc[1] + (("span",),)), span_value(org, start, ln))
+
+
 def front_of(S, loc):
     """number of elements already taken from the front of the sequence at loc (relative to its origin), or None if unknown"""
     v = S.read((loc[0], loc[1] + (("front",),)))
@@ -272,7 +288,9 @@ def m_pop(it, S, t, callee, args):
 @model("alloc::vec::Vec::clear", "bytes::bytes_mut::BytesMut::clear", "alloc::string::String::clear")
 def m_clear(it, S, t, callee, args):
     loc = it.target(args[0])
+    org, st, ln = span_of(it, S, loc)
     set_len(it, S, loc, U(0))
+    set_span(S, loc, org, plus(st, ln), U(0))
     return K("()", "zst")
 
 
@@ -369,10 +387,16 @@ def m_drain(it, S, t, callee, args):
         return None
     check_range(it, S, t, "Vec::drain", rng, ln, "alloc::vec::Vec::drain")
     count = minus(rng[1], rng[0])
+    org, st, _ = span_of(it, S, loc)
+    before = S.read(loc)
     set_len(it, S, loc, minus(ln, count))
+    if const_val(rng[0]) == 0:
+        set_span(S, loc, org, plus(st, rng[1]), minus(ln, count))
+    else:
+        S.mem.pop((loc[0], loc[1] + (("span",),)), None)
     R = ("call", it.site(), callee.get("path"))
     set_ty(R, tykey(Place(t["dest"]).ty))
-    return ("upd", R, (((("len",),), count), ((("src",),), S.read(loc))))
+    return ("upd", R, (((("len",),), count), ((("src",),), before), ((("span",),), span_value(org, plus(st, rng[0]), count))))
 
 
 def index_common(it, S, t, callee, args, owned=False):
@@ -490,10 +514,12 @@ def m_split_off(it, S, t, callee, args):
     it.oblige("precond:split_off", "split_off|at=%s|len=%s" % (stable(n), stable(ln)), proved, t["span"],
               "at %s ; len %s" % (it.describe(S, n), it.describe(S, ln)), callee="split_off")
     S.add_le(n, ln, 0)
+    org, st, _ = span_of(it, S, loc)
     set_len(it, S, loc, n)
+    set_span(S, loc, org, st, n)
     R = ("call", it.site(), callee.get("path"))
     set_ty(R, tykey(Place(t["dest"]).ty))
-    return it.with_len(R, minus(ln, n))
+    return ("upd", R, (((("len",),), minus(ln, n)), ((("span",),), span_value(org, plus(st, n), minus(ln, n)))))
 
 
 @model("bytes::buf::buf_impl::Buf::advance", "<bytes::bytes_mut::BytesMut as bytes::buf::buf_impl::Buf>::advance")
@@ -548,8 +574,25 @@ def m_copy_from_slice(it, S, t, callee, args):
     it.oblige("precond:copy_from_slice", "copy_from_slice|dst=%s|src=%s" % (stable(la), stable(lb)), proved, t["span"],
               "dst len %s ; src len %s" % (it.describe(S, la), it.describe(S, lb)), callee="copy_from_slice")
     loc = it.target(args[0])
-    S.havoc(loc, it.site())
-    set_len(it, S, loc, la)
+    # what was copied where: the destination's storage remembers (start, length, source) of every region copy
+    src = it.deref_value(S, args[1], 2, it.op_type(t["args"][1]))
+    under, start = loc, U(0)
+    if loc[0][0] == "V" and not loc[1]:
+        of = S.mem.get((loc[0], (("of",),)))
+        if isinstance(of, tuple) and of[0] == "ref":
+            under = of[1]
+            start = S.mem.get((loc[0], (("start",),)), U(0))
+    old = S.read((under[0], under[1] + (("regions",),)))
+    regions = old[2] if isinstance(old, tuple) and old[0] == "model" and old[1] == "regions" else ()
+    if under is loc:
+        S.havoc(loc, it.site())
+        set_len(it, S, loc, la)
+    else:
+        keep_len = S.mem.get((under[0], under[1] + (("len",),)))
+        S.havoc(under, it.site())
+        if keep_len is not None:
+            S.write((under[0], under[1] + (("len",),)), keep_len)
+    S.write((under[0], under[1] + (("regions",),)), ("model", "regions", regions + ((start, la, src),)))
     return K("()", "zst")
 
 
@@ -1226,6 +1269,56 @@ def m_vec_into_iter(it, S, t, callee, args):
     return ("upd", R, tuple(subs))
 
 
+@model("core::slice::<impl [T]>::iter")
+def m_slice_iter(it, S, t, callee, args):
+    # yields references to the slice's elements in order, exactly len of them
+    v = it.deref_value(S, args[0], 1, it.op_type(t["args"][0]))
+    ln = it.len_of_ref(S, args[0], it.op_type(t["args"][0]))
+    R = ("model", "slice-iter", v)
+    set_ty(R, tykey(Place(t["dest"]).ty))
+    return it.with_len(R, ln)
+
+
+@model("core::iter::traits::iterator::Iterator::map")
+def m_iter_map(it, S, t, callee, args):
+    # lazy: the same number of items, each passed through the closure when consumed
+    src, clo = args[0], args[1]
+    if isinstance(clo, tuple) and clo[0] == "agg" and isinstance(clo[1], tuple) and clo[1][0] == "closure":
+        R = ("model", "iter-map", src, clo[1][1])
+        set_ty(R, tykey(Place(t["dest"]).ty))
+        return it.with_len(R, project(src, (("len",),)))
+    return None
+
+
+@model("core::iter::traits::iterator::Iterator::sum")
+def m_iter_sum(it, S, t, callee, args):
+    # the sum of bytes widened by a pure cast closure: between 0 and 255 * len (overflow of the sum type is an obligation)
+    v = args[0]
+    while isinstance(v, tuple) and v[0] == "upd":
+        v = v[1]
+    if isinstance(v, tuple) and v[0] == "model" and v[1] == "iter-map":
+        inner = v[2]
+        while isinstance(inner, tuple) and inner[0] == "upd":
+            inner = inner[1]
+        tmpl = it.ctx.ret_expr(v[3]) if v[3] in it.prog.bodies else None
+        pure_widen = isinstance(tmpl, tuple) and tmpl[0] == "cast" and isinstance(tmpl[2], tuple) and tmpl[2][0] == "ld" and tmpl[2][1][0][0] == "P"
+        if pure_widen and isinstance(inner, tuple) and inner[0] == "model" and inner[1] == "slice-iter":
+            ln = project(args[0], (("len",),))
+            ty = tykey(Place(t["dest"]).ty)
+            R = ("model", "sum-of-bytes", inner[2])
+            set_ty(R, ty)
+            cl = const_val(ln)
+            if cl is None:
+                cl = S.dom(ln).hi
+            hi = 255 * cl if isinstance(cl, int) and cl < 2 ** 40 else None
+            r = ty_range(ty)
+            if hi is not None and r is not None:
+                it.oblige("overflow:Sum", "sum|%s" % stable(R), hi <= r[1], t["span"], "sum of %s bytes is at most %s" % (cl, hi), callee="Iterator::sum")
+                S.set_dom(R, Dom(0, min(hi, r[1])))
+            return R
+    return None
+
+
 @model("core::slice::<impl [T]>::chunks")
 def m_chunks(it, S, t, callee, args):
     # <[T]>::chunks(n) panics if n == 0; yields ceil(len / n) non-empty sub-slices of at most n items, in order (std docs)
@@ -1255,6 +1348,9 @@ def m_collect(it, S, t, callee, args):
     R = ("model", "collect", args[0])
     set_ty(R, tykey(Place(t["dest"]).ty))
     ln = project(args[0], (("len",),))
+    sp = project(args[0], (("span",),))
+    if isinstance(sp, tuple) and sp[0] == "model" and sp[1] == "span":
+        return ("upd", R, (((("len",),), ln), ((("span",),), sp)))
     return it.with_len(R, ln)
 
 
